@@ -57,6 +57,14 @@ type Contract struct {
 	Opts       map[string]string
 	Src        string
 	File       string
+	Views      []*View
+}
+
+// View is a derived contract parameter: view name = expr (evaluated in the pre-state)
+type View struct {
+	Name string
+	Text string
+	Expr ast.Expr
 }
 
 type Specs struct {
@@ -174,6 +182,16 @@ func (S *Specs) loadSpecFile(path string, repoFile bool, pkg string) error {
 			last = &Clause{Kind: "def", Text: m[3], Src: src}
 			// body parsed lazily at finish (continuations)
 			defClauses = append(defClauses, defPending{d, last})
+		case kw == "view":
+			kv := strings.SplitN(rest, "=", 2)
+			if len(kv) != 2 {
+				return fmt.Errorf("%s: bad view", src)
+			}
+			e, err := parseSpecExpr(strings.TrimSpace(kv[1]))
+			if err != nil {
+				return fmt.Errorf("%s: view: %v", src, err)
+			}
+			cur.Views = append(cur.Views, &View{Name: strings.TrimSpace(kv[0]), Text: strings.TrimSpace(kv[1]), Expr: e})
 		case kw == "params":
 			cur.Params = splitNames(rest)
 		case kw == "results":
